@@ -34,7 +34,7 @@ SIGS = {
 }
 SHAPES = {1: [(3,)], 2: [(2, 3), (2, 2)], 3: [(1, 2, 3)]}
 LEADS = [(), (), (5,), (5, 7)]  # leading axes in front of the channel axis (the channel axis itself comes from the signature)
-TRIPS = ["vector", "scalar", "concat", "expand", "merge", "expand3", "merge3", "pmap", "images", "copy", "jit", "vmap", "flatten"]
+TRIPS = ["vector", "scalar", "concat", "expand", "merge", "expand3", "merge3", "pmap", "pmapb", "images", "copy", "jit", "vmap", "flatten"]
 
 
 def cells(tier, seed):
@@ -47,9 +47,11 @@ def cells(tier, seed):
                 orders = [orders[0], orders[-1]] if len(orders) > 1 else orders
             for order in orders:
                 for shape in SHAPES[D]:
-                    for li, lead in enumerate([None, (), (5,), (5, 7)]):
-                        # lead None: no channel axis at all (0 leading axes)
-                        if tier == "quick" and D == 3 and li == 3:
+                    for li, lead in enumerate([None, (), (5,), (5, 7), (6, 2)]):
+                        # lead None: no channel axis at all (0 leading axes); (6, 2): a batch that several device counts divide
+                        if tier == "quick" and D == 3 and li >= 3:
+                            continue
+                        if li == 4 and tier == "quick" and shape != SHAPES[D][0]:
                             continue
                         out.append({"D": D, "sig": si, "order": list(order), "shape": shape, "lead": lead, "chain": None})
     nchain = 40 if tier == "quick" else 300
@@ -58,7 +60,7 @@ def cells(tier, seed):
         si = rng.randrange(len(SIGS[D]))
         order = list(range(len(SIGS[D][si])))
         rng.shuffle(order)
-        out.append({"D": D, "sig": si, "order": order, "shape": rng.choice(SHAPES[D]), "lead": rng.choice([(), (5,), (5, 7)]),
+        out.append({"D": D, "sig": si, "order": order, "shape": rng.choice(SHAPES[D]), "lead": rng.choice([(), (5,), (5, 7), (6, 2)]),
                     "chain": [rng.choice(TRIPS) for _ in range(rng.choice([2, 3]))]})
     for D in (2, 3):
         out.append({"kind": "metadata", "D": D})
@@ -255,12 +257,18 @@ def _trip(name, m, geom, jax, jnp, n_lead, rec):
         ax = n_lead - 1
         e = m.expand(ax, 1).expand(ax, 1)
         return e.combine_axes((ax, ax + 1, ax + 2)) if name == "expand3" else e.merge_axes([ax, ax + 1, ax + 2])
-    if name == "pmap":
+    if name in ("pmap", "pmapb"):
         if n_lead < 2:
             return None
         L = m.get_L()
         res = m
-        for nd in [d for d in (1, L) if L % d == 0]:
+        proper = [d for d in range(2, L) if L % d == 0]
+        # device counts dividing the batch, in particular 1 < nd < L (several devices AND several samples per device).  "pmap" and
+        # "pmapb" use different proper divisors and are separate trips: two wrong splits can be each other's inverse when chained
+        nds = ([1] + proper[:1] + [L]) if name == "pmap" else proper[-1:]
+        if not nds:
+            return None
+        for nd in nds:
             res = res.reshape_pmap([None] * nd).merge_axes([0, 1])
         return res
     if name == "images":
